@@ -58,11 +58,13 @@ ContainsRegion(o, i, q) ==
         /\ InDisc(o, i.a, i.b, q) /\ InDisc(o, i.c, i.b, q)
         /\ InDisc(o, i.c, i.d, q) /\ InDisc(o, i.a, i.d, q)
     ELSE
+        \* (the two bounding comparisons only keep the squares inside 32 bits: they are implied
+        \* by the last conjunct; radii may be negative, the code does not reject them)
         LET dx == RoundQ(o.a - i.a, q)
             dy == RoundQ(o.b - i.b, q)
             dr == RoundQ(o.c - i.c, q)
         IN  /\ i.c <= o.c
-            /\ Abs(o.a - i.a) <= o.c /\ Abs(o.b - i.b) <= o.c
+            /\ Abs(o.a - i.a) <= o.c - i.c /\ Abs(o.b - i.b) <= o.c - i.c
             /\ dx * dx + dy * dy <= dr * dr
 
 =============================================================================
